@@ -205,7 +205,7 @@ def gallina_arg(t):
 def source_key(inc):
     import hashlib
     h = hashlib.sha256()
-    files = [SRC, os.path.abspath(__file__)]
+    files = [SRC, os.path.join(os.path.dirname(SRC), "symkern_sym.h"), os.path.abspath(__file__)]
     for root, _, fs in os.walk(inc):
         files += [os.path.join(root, f) for f in fs]
     for f in sorted(files):
